@@ -2080,6 +2080,16 @@ class TLSConnection(TLSRecordLayer):
                 else: break
             publicKey, serverCertChain, tackExt = result
 
+            # RSA key exchange encrypts to the server's key: it has to be RSA
+            if cipherSuite in CipherSuite.certSuites and \
+                    serverCertChain.x509List[0].certAlg not in \
+                    ("rsa", "rsa-pss"):
+                for result in self._sendError(
+                        AlertDescription.illegal_parameter,
+                        "Server certificate can't be used with RSA key "
+                        "exchange"):
+                    yield result
+
             #Check the server's signature, if the server chose an authenticated
             # PFS-enabled ciphersuite
 
